@@ -146,6 +146,13 @@ structure Env.Lawful (env : Env) : Prop where
   ts_rt : ∀ t : Int, rfcLo ≤ t → t ≤ rfcHi → env.parseTs (env.fmtTs t) = some t
   lambda_rt : ∀ code, env.lambdaOk code = true → env.normLambda code = some code
 
+/-- `Env.Lawful` without the RFC 3339 law: what is left as a hypothesis once the clock is the concrete
+`Civil.fmtTimestamp` / `Civil.parseTimestamp`, for which that law is proved -/
+structure Env.LawfulCodecs (env : Env) : Prop where
+  text_rt : ∀ k d, env.valid k d = true → env.ofText k (env.text k d) = some d
+  bin_rt : ∀ k d, env.valid k d = true → env.ofBin k (env.bin k d) = some (binNorm k d)
+  lambda_rt : ∀ code, env.lambdaOk code = true → env.normLambda code = some code
+
 /-! ### tables read from the source -/
 
 /-- `(prim, len(args)) in handlers` of `parse_micheline_value` in the class of type `ty` -/
